@@ -39,7 +39,7 @@ def usable_bases(rm, pool=ROLES_PLAIN):
     for b in pool:
         if rm.defines(b):
             out.append(b)
-        elif not b.endswith('-of') and not rm.defines(b + '-of'):
+        elif not rm.inverted(b) and not rm.defines(rm.invert_role(b)):
             out.append(b)
     return out
 
@@ -79,13 +79,13 @@ def rand_tree(rng, rm=None, n_nodes=None, p_reent=0.35, p_const=0.4, p_inv=0.3,
 
     def denote(src, role, tgt, tgt_is_var):
         if tgt_is_var and rm.inverted(role) and not rm.noop:
-            return (tgt, role[:-3], src)
+            return (tgt, rm.invert_role(role), src)
         return (src, role, tgt)
 
     def pick_role(inv_ok):
         r = rng.choice(bases)
-        if inv_ok and rng.random() < p_inv and not rm.defines(r + '-of'):
-            r = r + '-of'
+        if inv_ok and rng.random() < p_inv and not rm.inverted(r) and not rm.defines(rm.invert_role(r)):
+            r = rm.invert_role(r)
         return r
 
     def build(v):
